@@ -623,6 +623,46 @@ func c01(c *core.Ctx) {
 		c.EndRule()
 	}
 
+	// ---------------------------------------------------------------- R14
+	if c.Rule("R14", "HTTP client: the reply reader hands each message to the application synchronously — the message channel of the client stream is made without capacity: the stream's completion (done, final status) is published when the reader returns, and a receive that finds the stream done reports the final status at once; a message parked in a buffered channel at that moment would never be delivered", 1) {
+		n := 0
+		for _, nt := range streamTypes(p, "ClientStream", "RecvMsg") {
+			if pkgSuffixOf(nt) != "httpgrpc" {
+				continue
+			}
+			tn := nt.Obj().Name()
+			for _, fn := range p.LibFuncs("httpgrpc") {
+				core.Instrs(fn, func(in ssa.Instruction) {
+					st, ok := in.(*ssa.Store)
+					if !ok {
+						return
+					}
+					base, fld, isF := core.FieldOf(st.Addr)
+					if !isF || core.NamedOf(base.Type()) != tn {
+						return
+					}
+					ch, isCh := st.Val.Type().Underlying().(*types.Chan)
+					if !isCh || core.TypeStr(ch.Elem()) == "struct{}" {
+						return
+					}
+					for _, o := range core.Origins(st.Val) {
+						mk, isMk := o.(*ssa.MakeChan)
+						if !isMk {
+							continue
+						}
+						n++
+						k, isC := core.ConstInt(mk.Size)
+						c.Check(isC && k == 0, core.FuncName(fn)+":"+fld+":unbuffered", mk.Pos(), "the message channel is unbuffered", "the client stream's message channel "+fld+" is made with a capacity: messages the reply reader has parked in it when it publishes the end of the stream are never received — the next receive sees 'done' and reports the final status")
+					}
+				})
+			}
+		}
+		if n == 0 {
+			c.Missing("make of the HTTP client stream's message channel")
+		}
+		c.EndRule()
+	}
+
 	// ---------------------------------------------------------------- R8, R9 (shared)
 	// nothing is lost on the way: the in-process header accessor takes at most one frame and never parks over it
 	// (C20/R6), and the HTTP reply reader cannot end "successfully" without the trailer (C02/R1: a lost read error
